@@ -63,6 +63,7 @@ func c04NewManager() *PodGroupManager { // as NewManagerForTest of the package's
 }
 
 var c04Pods = []string{"p1", "p2", "p3", "p4", "p5", "p6", "p7", "p8"}
+
 // the id of the third gang is a prefix of the first one's ("ns/g1" / "ns/g11"): ids must be compared, not searched for
 var c04Gangs = []string{"g11", "g2", "g1"}
 
@@ -77,6 +78,7 @@ type c04Op struct {
 	Op     string                `json:"op"`
 	Pod    string                `json:"pod,omitempty"`
 	Bound  bool                  `json:"bound,omitempty"`
+	Term   bool                  `json:"term,omitempty"` // podSet: the object carries a deletionTimestamp (a finalizer holds it): still a member until it is deleted
 	Auto   bool                  `json:"auto,omitempty"`
 	GangOf map[string]string     `json:"gangOf,omitempty"`
 	Cfg    map[string]c04GangCfg `json:"cfg,omitempty"`
@@ -91,7 +93,7 @@ type c04Waiting struct {
 	w   *c04World
 }
 
-func (wp *c04Waiting) GetPod() *corev1.Pod          { return wp.pod }
+func (wp *c04Waiting) GetPod() *corev1.Pod         { return wp.pod }
 func (wp *c04Waiting) GetPendingPlugins() []string { return []string{"Coscheduling"} }
 func (wp *c04Waiting) Allow(pluginName string)     { wp.w.allowed[wp.pod.Name] = true }
 func (wp *c04Waiting) Reject(pluginName, msg string) {
@@ -235,6 +237,12 @@ func (w *c04World) exec(o c04Op) []string {
 	switch o.Op {
 	case "podSet":
 		obj := w.podObj(o.Pod, o.Bound)
+		if o.Term {
+			now := metav1.Now()
+			obj.DeletionTimestamp = &now
+			obj.Finalizers = []string{"verif/hold"}
+			ev["term"] = true
+		}
 		if old, ok := w.objs[o.Pod]; ok {
 			w.mgr.cache.onPodUpdate(old, obj)
 		} else {
@@ -376,7 +384,7 @@ func c04RandomCfg(rng *rand.Rand) (map[string]string, map[string]c04GangCfg) {
 	policy := []string{"once", "waiting", "waitrun"}[rng.Intn(3)]
 	strict := rng.Intn(2) == 0
 	split := ng == 3 && rng.Intn(2) == 0 // the third gang on its own
-	alone := ng >= 2 && rng.Intn(6) == 0  // every gang on its own
+	alone := ng >= 2 && rng.Intn(6) == 0 // every gang on its own
 	for i, g := range c04Gangs {
 		grp := []string{g}
 		if i < ng && !alone {
@@ -411,8 +419,9 @@ func c04RandomRun(rec *vu.Recorder, rng *rand.Rand, steps int) {
 	for _, c := range cfg {
 		hasOnce = hasOnce || c.Policy == "once"
 	}
-	inflight := map[string]bool{}  // deleted while the scheduler still owns them (parked or in the binding goroutine)
-	informed := map[string]bool{}  // the informer has delivered an object carrying a node name: no later object can lack it
+	inflight := map[string]bool{} // deleted while the scheduler still owns them (parked or in the binding goroutine)
+	informed := map[string]bool{} // the informer has delivered an object carrying a node name: no later object can lack it
+	terminating := map[string]bool{}
 	for i := 0; i < steps; i++ {
 		if crd && rng.Intn(14) == 0 {
 			// the PodGroup object of one gang is updated: min member, mode, match policy or gang group
@@ -465,6 +474,7 @@ func c04RandomRun(rec *vu.Recorder, rng *rand.Rand, steps int) {
 			released := owned && w.fw[p] == nil
 			rej = w.exec(c04Op{Op: "podDelete", Pod: p})
 			informed[p] = false
+			terminating[p] = false
 			if owned {
 				inflight[p] = true
 				if !released {
@@ -475,10 +485,12 @@ func c04RandomRun(rec *vu.Recorder, rng *rand.Rand, steps int) {
 				}
 			}
 		case k == 1:
-			// fresh informer update, or a stale one (the object still lacks the node name although PostBind already ran)
+			// fresh informer update, or a stale one (the object still lacks the node name although PostBind already ran);
+			// the pod may have started terminating (a finalizer holds it; once set the timestamp stays)
 			b := informed[p] || (w.bound[p] && rng.Intn(3) > 0)
 			informed[p] = b
-			rej = w.exec(c04Op{Op: "podSet", Pod: p, Bound: b})
+			terminating[p] = terminating[p] || rng.Intn(3) == 0
+			rej = w.exec(c04Op{Op: "podSet", Pod: p, Bound: b, Term: terminating[p]})
 		case w.bound[p]:
 			continue
 		case w.assumed[p] && w.fw[p] != nil:
